@@ -1358,6 +1358,12 @@ func c15SpaceOf(its []shutItem, K int) mck.Space {
 			al["t1-data"] = pdgram{"t1-data", expA, (&ref.Msg{V9: it.proto == ppV9, Hdr: [5]uint32{1, 5, 6, 7, 8}, Sets: []ref.Set{{Kind: ref.SetData, TemplateID: 300, Records: []ref.Record{flowRec(t, 33)}}}}).Encode(map[uint16]ref.Template{300: t})}
 		}
 		cacheFile := filepath.Join(pipeTmpGet(), fmt.Sprintf("c15-%d.cache", idx0))
+		// every other unit keeps its cache file on ANOTHER FILESYSTEM than the temporary directory (where the runner
+		// found one): saving at shutdown must not depend on where temporary files live
+		if alt := os.Getenv("VERIF_CACHE_DIR2"); alt != "" && idx0%2 == 1 {
+			cacheFile = filepath.Join(alt, fmt.Sprintf("c15-%d-%d.cache", os.Getpid(), idx0))
+			defer os.Remove(cacheFile)
+		}
 		// expected publication after the restart: standalone decode of t1-data with T1 known
 		wantRestart := ""
 		if d, ok := al["t1-data"]; ok {
